@@ -116,7 +116,8 @@ CHECKS = [
         "Deductive proof, for every assignment of an outcome (success / out-of-range / client error / unexpected exception / no reply "
         "before the timeout) to every set_power call, that battery and PV results satisfy succeeded + failed + excess = requested, "
         "with disjoint exhaustive component sets, failed power = sum of failed set-points, one API call per set-point with exactly "
-        "that power. Found and repaired a genuine defect in the PV manager (fix: commit in /repo).",
+        "that power. Found and repaired a genuine defect in the PV manager (fix: commit in /repo). "
+        "A bounded native explorer on the real objects runs alongside as a second, structure-independent line of detection (labelled bounded in the evidence; not part of the proof, never counted in obligations/discharged).",
         "asyncio task model (create_task/wait(timeout)/cancel/gather) assumed; API client, connection manager, status tracker, "
         "results sender are scripted collaborators; structural bound: two inverters per pool; floats as reals",
         "contract-based deductive verification with a task/exception-outcome model (z3)", "DESIGN.md 3 (C15)"),
